@@ -186,6 +186,9 @@ func (p *Parser) parseSliceExpression() (ASTNode, error) {
 	for current != tRbracket && index < 3 {
 		if current == tColon {
 			index++
+			if index == 3 {
+				return ASTNode{}, p.syntaxError("Too many colons in slice expression")
+			}
 			p.advance()
 		} else if current == tNumber {
 			parsedInt, err := strconv.Atoi(p.lookaheadToken(0).value)
@@ -194,6 +197,9 @@ func (p *Parser) parseSliceExpression() (ASTNode, error) {
 			}
 			parts[index] = &parsedInt
 			p.advance()
+			if next := p.current(); next != tColon && next != tRbracket {
+				return ASTNode{}, p.syntaxError("Expected tColon or tRbracket" + ", received: " + next.String())
+			}
 		} else {
 			return ASTNode{}, p.syntaxError(
 				"Expected tColon or tNumber" + ", received: " + p.current().String())
